@@ -54,6 +54,7 @@ def cases(tier):
         yield dict(kind="lig", part=i, tier=tier)
     yield dict(kind="lig-two", tier=tier)
     yield dict(kind="lig-unnamed", tier=tier)
+    yield dict(kind="lig-mismatch", tier=tier)
     yield dict(kind="split", tier=tier)
     yield dict(kind="split-run", tier=tier)
 
@@ -425,6 +426,39 @@ def check_lig_unnamed(case):
     return viols, evals, keys
 
 
+def check_lig_mismatch(case):
+    """-lig parts whose molecule name and molecule index contradict each other name no molecule: the run must refuse them
+    (or at least leave every molecule built as itself), on the host side and on the ligand side alike"""
+    viols, evals, keys = [], 0, []
+    sysd = dict(SYS, kwargs=dict(nrewind=2, maxiter=5))
+    for side, hspec, lspec in (("ligand", "CH4#3-B#2", "W#4"), ("ligand", "CH4#0-S#1", "W#3"), ("host", "W#3-B#2", "W#1"), ("host", "CH4#1-W#1", "W#2"),
+                               ("ligand", "CH4#3-B#2", "CH4#1")):
+        s2 = json.loads(json.dumps(sysd))
+        s2["kwargs"]["ligands"] = [[hspec, lspec]]
+        evals += 1
+        case1 = dict(kind="ligm1", host=hspec, lig=lspec)
+        res = G.run_gen_coords(s2, Chooser([]))
+        keys.append(f"ligm:{hspec}:{lspec}")
+        if res["exc"] is not None:
+            continue            # refused
+        # accepted: then every CH4 molecule must still be a chain (consecutive residues one step apart)
+        want_atoms = G.expand_atoms(s2)
+        atoms = res["gro"][0] if res["gro"] else []
+        pos = {}
+        for (mi, name, resid, resname, an), x in zip(want_atoms, atoms):
+            pos[(mi, resid - 1)] = np.array(x[3])
+        box = np.array(s2["box"])
+        for mi in (0, 3, 4):
+            for r in range(3):
+                dist = np.linalg.norm(O.min_image(pos[(mi, r)] - pos[(mi, r + 1)], box))
+                if abs(dist - 0.75) > 2e-3 and len(viols) < 20:
+                    viols.append(dict(assertion="contradictory-ligand-spec-selects-nothing", tags=[f"side:{side}"],
+                                      message=f"-lig {hspec}:{lspec} (molecule name and index disagree on the {side} side) was accepted and molecule {mi} is no longer "
+                                              f"built as a chain: residues {r},{r + 1} are {dist:.3f} nm apart", case=case1, detail={}))
+                    break
+    return viols, evals, keys
+
+
 def check_lig_two(case):
     """two -lig options at once: each ligand molecule ends one step from the host residue its own option names"""
     viols, evals, keys = [], 0, []
@@ -565,7 +599,7 @@ def check_split_run(case):
     return viols, evals, keys
 
 
-FUNCS = {"lig-unnamed": check_lig_unnamed, "lig-two": check_lig_two, "tags-dup": check_tags_dup, "pairdir": check_pair_directives, "tags": check_tags, "tags-multi": check_tags_multi, "start": check_start, "lig": check_lig, "split": check_split,
+FUNCS = {"lig-mismatch": check_lig_mismatch, "lig-unnamed": check_lig_unnamed, "lig-two": check_lig_two, "tags-dup": check_tags_dup, "pairdir": check_pair_directives, "tags": check_tags, "tags-multi": check_tags_multi, "start": check_start, "lig": check_lig, "split": check_split,
          "split-run": check_split_run}
 
 
@@ -573,7 +607,7 @@ def run_case(case):
     kind = case["kind"]
     if kind not in FUNCS:
         # replay of single sub-cases is done by re-running the owning family (cheap) and filtering
-        fam = {"tags1": "tags", "tagsm1": "tags-multi", "pairdir1": "pairdir", "tagsdup1": "tags-dup", "lig2": "lig-two", "ligu1": "lig-unnamed", "start1": "start", "lig1": "lig", "split1": "split", "splitrun1": "split-run"}[kind]
+        fam = {"tags1": "tags", "tagsm1": "tags-multi", "pairdir1": "pairdir", "tagsdup1": "tags-dup", "lig2": "lig-two", "ligu1": "lig-unnamed", "ligm1": "lig-mismatch", "start1": "start", "lig1": "lig", "split1": "split", "splitrun1": "split-run"}[kind]
         out = []
         for part in range(4 if fam == "lig" else 1):
             c = dict(kind=fam, tier="quick", part=part, directive="sphere" if case.get("key") != "rw_options" else "rw")
